@@ -229,7 +229,8 @@ def k_year_nine_star(eng, which, lo=-1, hi=9999):
 
 
 def k_hour_nine_star(eng, route):
-    """flying nine star of the hour: ascending between the winter- and the summer-solstice day, descending otherwise; first hour's star
+    """flying nine star of the hour: ascending from a winter-solstice day up to the next summer-solstice day (this includes the last days of
+    December, on or after that December's solstice), descending otherwise; first hour's star
     by the day branch: 子午卯酉 一白 / 九紫, 辰戌丑未 四绿 / 六白, 寅申巳亥 七赤 / 三碧; one per double hour.  route: LunarHour | SixtyCycleHour"""
     from .seasons import install, TermV
     holder = {}
@@ -244,6 +245,7 @@ def k_hour_nine_star(eng, route):
         S = ctx.fresh_value("summer_solstice_day", "isize")
         dp = ctx.fresh_value("day_pillar", "usize")
         hour = ctx.fresh_value("hour", "usize")
+        W2 = ctx.fresh_value("next_winter_solstice_day", "isize")
         holder.update(ctx=ctx)
         day_rec = Rec(ctx, "the_solar_day", "SolarDay")
 
@@ -252,6 +254,8 @@ def k_hour_nine_star(eng, route):
                 return W
             if ykey == year.s and idx == 12:
                 return S
+            if ykey == year.s and idx == 24:
+                return W2
             raise Unsupported("unexpected term (%s, %d)" % (ykey, idx))
         install(ctx, day_rec, O, year, termday)
         model = ctx.model
@@ -271,10 +275,11 @@ def k_hour_nine_star(eng, route):
             return base(c, fr, callee, args, path)
         model.call = call
         paths = ctx.run(fn, [("refrec", rec)])
-        pre = ["(<= 0 %s 23)" % hour.s, "(<= 0 %s 59)" % dp.s, "(<= 170 (- %s %s) 190)" % (S.s, W.s), "(<= 2 %s 9998)" % year.s]
+        pre = ["(<= 0 %s 23)" % hour.s, "(<= 0 %s 59)" % dp.s, "(<= 170 (- %s %s) 190)" % (S.s, W.s), "(<= 170 (- %s %s) 190)" % (W2.s, S.s), "(<= 2 %s 9998)" % year.s,
+               "(<= (+ %s 1) %s (+ %s 20))" % (W.s, O.s, W2.s)]
         # hour index in the day: 23:00 counts as the first double hour of the NEXT day in the instant view (index 0), as index 12 -> 0 on the lunar-hour route
         hi = "(mod (div (+ %s 1) 2) 12)" % hour.s
-        asc = "(and (<= %s %s) (< %s %s))" % (W.s, O.s, O.s, S.s)
+        asc = "(or (and (<= %s %s) (< %s %s)) (>= %s %s))" % (W.s, O.s, O.s, S.s, O.s, W2.s)
         db = "(mod %s 12)" % dp.s
         first_asc = "(ite (= (mod %s 3) 0) 0 (ite (= (mod %s 3) 1) 3 6))" % (db, db)
         first_desc = "(ite (= (mod %s 3) 0) 8 (ite (= (mod %s 3) 1) 5 2))" % (db, db)
@@ -283,7 +288,13 @@ def k_hour_nine_star(eng, route):
             return [("star", "(= %s (ite %s (mod (+ %s %s) 9) (mod (- %s %s) 9)))" % (p.ret.idx.s, asc, first_asc, hi, first_desc, hi))]
         return ctx, paths, pre, posts, lambda p: _kind(p, "NineStar")
 
-    r = run_kernel(eng, "17.f/B/hour-nine-star/%s" % route, "17.f", "every day relative to the two solstice days, all 60 day pillars x 24 hours", build, None, None)
+    def replay(eng, model):
+        nat = eng.native("hour_nine_star_scan", 0 if route == "LunarHour" else 1)
+        if nat in ("NONE", "PANIC", "UNKNOWN", ""):
+            return nat == "PANIC", "native scan: " + (nat or "no output")
+        return True, "hour nine star runs the wrong way: " + nat
+
+    r = run_kernel(eng, "17.f/B/hour-nine-star/%s" % route, "17.f", "every day of a civil year relative to its three solstice days, all 60 day pillars x 24 hours", build, None, replay)
     return _finish(r, holder["ctx"]) if "ctx" in holder else r
 
 
